@@ -899,11 +899,31 @@ def canonHeader (h : Header) : Header :=
 
 def canonNode (s : Rat) (n : GNode) : GNode := { n with x := canonC 2 s n.x, y := canonC 2 s n.y }
 
+/-- the centre the reader gives a layer when the field is blank or zero -/
+def defaultCentre (above : Option GLayer) (b : Flt) : Flt :=
+  match above with
+  | some a => (b.add a.bottom).mul (1 / 2)
+  | none => b
+
+/-- a layer whose written centre is kept by the reader -/
 def canonLayer (s : Rat) (l : GLayer) : GLayer :=
   { l with bottom := canonC 2 s l.bottom, centre := canonC 2 s l.centre, top := .q 0 }
 
+/-- a layer after the trip through the file, `above` being the (already re-read) layer before it:
+    `read_layers` keeps a written centre only `if centre:` — a centre written as `0.00` / `-0.00`
+    is replaced by the default (mid-point of the two bottoms; the bottom itself for the first layer) -/
+def canonLayerAt (s : Rat) (above : Option GLayer) (l : GLayer) : GLayer :=
+  { l with bottom := canonC 2 s l.bottom,
+           centre := (if (roundF 2 (l.centre.div s)).truthy then canonC 2 s l.centre
+                      else defaultCentre above (canonC 2 s l.bottom)),
+           top := .q 0 }
+
+def canonLayersAux (s : Rat) : Option GLayer → List GLayer → List GLayer
+  | _, [] => []
+  | above, l :: r => canonLayerAt s above l :: canonLayersAux s (some (canonLayerAt s above l)) r
+
 def canonLayers (s : Rat) (ls : List GLayer) : List GLayer :=
-  match ls.map (canonLayer s) with
+  match canonLayersAux s none ls with
   | [] => []
   | l0 :: r => layerTops l0.bottom (l0 :: r)
 
@@ -973,12 +993,6 @@ def headerOK (h : Header) : Bool :=
   (match h.blockOrderInt with | some i => i == 0 || i == 1 | none => true) &&
   h.blockOrder == h.blockOrderInt.map Int.toNat &&
   h.extra.isEmpty
-
-/-- the centre the reader gives layer number `i` when the field is blank or zero -/
-def defaultCentre (above : Option GLayer) (b : Flt) : Flt :=
-  match above with
-  | some a => (b.add a.bottom).mul (1 / 2)
-  | none => b
 
 /-- every layer centre survives: its written decimal is non-zero, or the default the reader
     substitutes for a zero is the very same float (KNOWN FINDING `layer-centre-zero-recomputed`
